@@ -196,8 +196,10 @@ impl AggregateExecutionEngine {
                     if let Some(value) = aggregator.update(column_value)? {
                         *self.get_group_value(group_key.clone(), aggregate_index, || Ok(value.clone()))? = value.clone();
                     }
-                } else if aggregator.is_null() {
-                    *self.get_group_value(group_key.clone(), aggregate_index, || Ok(Value::Null))? = Value::Null;
+                } else {
+                    // No value yet: the aggregate is NULL for this group until a non-null value arrives
+                    // (creates the entry, so that the group is part of the result)
+                    self.get_group_value(group_key.clone(), aggregate_index, || Ok(Value::Null))?;
                 }
             }
             Aggregate::CollectArray(ref expression) => {
@@ -227,6 +229,10 @@ impl AggregateExecutionEngine {
                         }
                     )?;
 
+                    if group_value.is_null() {
+                        *group_value = Value::String(String::new());
+                    }
+
                     if let Value::String(group_value) = group_value {
                         if !group_value.is_empty() {
                             group_value.push_str(delimiter);
@@ -236,6 +242,9 @@ impl AggregateExecutionEngine {
                     }
                 } else if column_value.is_not_null() {
                     return Err(ExecutionError::ExpectedStringValue);
+                } else {
+                    // No value yet: NULL for this group until a string arrives (creates the entry, so that the group is part of the result)
+                    self.get_group_value(group_key.clone(), aggregate_index, || Ok(Value::Null))?;
                 }
             }
         }
